@@ -37,7 +37,9 @@ def encodingsP : P Encodings := list (do let k â† nameP; let v â† namesP; pure
 
 def dsP : P (Ds Int) := do
   let t â† rows; let n â† nat; let ll â† bool; let ex â† list varP; let en â† encodingsP
-  pure { table := t, nodes := (List.range n).map Int.ofNat, lonlat := ll, extras := ex, encoding := en }
+  let hasS â† bool; let sv â† int
+  pure { table := t, nodes := (List.range n).map Int.ofNat, lonlat := ll, extras := ex, encoding := en,
+         fnStart := if hasS then some sv else none }
 
 def fmtP : P Fmt := do
   match (â† nat) with
@@ -71,7 +73,9 @@ def env : Env Int Int := { radToXyz := id, deg2rad := (Â· + XYZ_OK), toXyz := (Â
 
 def encOut : Out Int Int â†’ String
   | .nothing => "0"
-  | .ugrid o => s!"1 {encTopo o.topo} {encVars o.vars} {encTopo o.encoding}"
+  | .ugrid o =>
+    let st := match o.fnStart with | some v => s!"1 {v}" | none => "0 0"
+    s!"1 {encTopo o.topo} {encVars o.vars} {encTopo o.encoding} {st}"
   | .exodus none => "2 0"
   | .exodus (some o) => s!"2 1 {encInts o.coord} {encBlocks o.blocks}"
   | .scrip none => "3 0"
